@@ -215,7 +215,7 @@ func compareRestored(w *pvx.World, r *runState, pm *pmodel) *core.Violation {
 					wantParent = p.P
 				}
 			}
-			if p.P == id {
+			if p.P == id && !r.exLinks[p.C] {
 				wantKids = append(wantKids, p.C)
 			}
 		}
@@ -238,7 +238,9 @@ func compareRestored(w *pvx.World, r *runState, pm *pmodel) *core.Violation {
 		}
 		var gotKids []string
 		for _, k := range d2.LinksOf(idInt(id)) {
-			gotKids = append(gotKids, fmt.Sprintf("%08x", k))
+			if c := fmt.Sprintf("%08x", k); !r.exLinks[c] { // (a session set aside is in nobody's list: a later connect may move its stale row)
+				gotKids = append(gotKids, c)
+			}
 		}
 		sort.Strings(gotKids)
 		sort.Strings(wantKids)
@@ -1010,7 +1012,7 @@ func classifyH(h History) core.Class {
 		cl.Fingerprint += "|" + scaleL[0]
 	}
 	if h.Fault != nil {
-		cl.Fingerprint += "|fault=" + h.Fault.How
+		cl.Fingerprint += "|fault"
 	}
 	return cl
 }
@@ -1030,7 +1032,7 @@ func dedup(in []string) []string {
 func TestC10a(t *testing.T) {
 	core.Run(t, core.Spec[History]{
 		Property: "C10", Sub: "a",
-		Rule: "histories of 1-5 registrations followed by 0-25 operations over 1-5 agents (database file, a third each: fresh / created by the current code and opened again / a copy of the committed testdata/golden-schema.db made by the unchanged tree - labels db:fresh|existed|golden; a violation on the golden file only, while its schema differs from a fresh one, is reported as schema|existing-database-differs-from-fresh|<tables>; ids over the whole 32-bit range incl. >= 2^31; metadata strings from {plain, digit-only, leading zeros, exponent-like, hex-like, whitespace-padded, empty, non-ASCII, quotes/SQL, decimal/signed/huge numbers, 300-9000 bytes}): reg, poll, pivot connect/disconnect, COMMAND_CHECKIN with new metadata and key, sleep / kill-date / working-hours callbacks, exit, kill-date, operator mark dead/alive, listener add (SMB, External; HTTP on an ephemeral port at ~1/20 of adds; names, and a third of the pipe names / endpoints, mostly from one per-history family of strings that differ but collide under ASCII/Unicode case, LIKE/glob wildcards vs literal characters, leading/trailing blanks, prefixes, Unicode normalisation or SQL quoting - label listener-names-colliding = two such listeners coexist) / remove / HTTP edit through the operator's DispatchEvent path; about half of the histories also contain one family of crafted updates of one agent (labels upd:*), mostly as the last operations so that the reopen follows at once: BOUNDARY SHIFT - two consecutive updates (key-preserving check-ins, or sleep callbacks) whose rows differ only by characters/digits moved across the boundary of two columns adjacent in the write order of db.AgentUpdate or in agent.AgentInfo (e.g. Username|DomainName bob|'' -> ''|bob, SleepDelay|SleepJitter 1|20 -> 12|0, ProcessName|BaseAddress svc1|23 -> svc|123), everything else incl. LastCallIn byte-identical; SWAP of two same-typed columns; NO-OP update(s) followed by a real one; REVERT A->B->A; each optionally interleaved with repeated identical updates; RESTART operations in the middle (a new Teamserver on the same file restores sessions, links and listeners as Start() does - in (a)/(b) a transcription of its restore loops, in (c) the real Start() in a new process - then the history goes on with registrations of new ids, of restored ids and of ids that were NOT restored because they were inactive, updates, deaths, marks, link and listener changes; several restarts allowed; only performed while every stored link joins two active sessions; labels restart-in-the-middle, restarts:2+, operations-after-restart, re-registration-of-unrestored-inactive-id, new-id-registered-after-restart); then a fresh db.DatabaseNew on the same file read with AgentAll/ParentOf/LinksOf/ListenerAll. Oracle: restored agents == active sessions of the running server, 25 columns equal byte for byte incl. key and IV; ParentOf/LinksOf == the server's Links lists; listener rows == listeners present with every operator-configured field equal. Non-trivial: a death, a link change or a numeric-looking string before the reopen; distinct = (death, link none/add/add+remove, numeric class bucket, listeners none/smb-ext/http/http-edited, colliding names, none/restart/restart+re-registration) ADDED - PIVOT TREES UNDER RESTARTS AT ANY POINT (a quarter of the histories, piv_test.go; label pivot-trees-with-restarts-at-any-point): 3-6 agents, a forest of depth up to 3 built through the real connect path (1-2 registered roots, every other session through the SMB-connect callback of its parent, some registered top-level first and then linked), then 3-14 events aimed by a model of the history at sessions for which they mean something: disconnect of an existing UPPER link (the child has links of its own) or LOWER link, a disconnect reported by a non-parent, death (exit / kill-date / mark dead) of any session, mark alive (preferably of an inactive session), check-in, poll, sleep, registration of an id that has no session in memory (not restored by the last restart), connect of ANY agent below any active session - preferably of a session whose STORED parent has no session in memory since the last restart, and of ids that are not in memory themselves -, listener add/remove, the old conditional restart, and 'restartx' = a restart at ANY point (several per history), i.e. also while a stored link names a session that is stored inactive (the start then restores the child without its parent and leaves the row). Labels: disconnect-of-upper-link, disconnect-of-lower-link, disconnect-reported-by-non-parent, restart-after-upper-link-disconnect, restart-leaves-child-of-unrestored-parent-as-root, reconnect-of-agent-whose-stored-parent-is-not-in-memory (reconnect-path:session-in-memory,stored-parent-not / connect-as-new:stored-parent-not-in-memory), restart-after-reconnect-of-agent-whose-stored-parent-was-not-in-memory, re-parented-after-restart, registration-of-unrestored-id, registration-of-unrestored-parent-with-stored-children, unrestored-id-registers-through-a-pivot, mark-alive-of-inactive-session, death-after-restart, connect-reported-by-inactive-session, restarts-at-any-point:2+, pivot-depth:n. Oracle for these histories (agents, 25 columns, key/IV and listeners as before): after EVERY restart the restored sessions == the sessions active before it, and the parent and the Links of every restored session == the pairs given by the link events of the history (connect(A,B) makes A the one stored parent of B; a disconnect reported by the parent or a death of either end while the server holds the link removes it; a session whose parent is not restored comes back as a root and gets its parent back when the parent is active again at a later start - what the unchanged tree does, followed operation by operation by pmodel, validated against it by TestC10PivModel); TS_Links never holds two rows for one child (signature links|two-rows-for-one-child); the final reopen is compared with the same model (signatures any-point-restart|...). The fingerprint of these histories gets a suffix any-point-restart=<plain | orphan+restart | upper-cut+restart | dangling-reconnect | dangling-reconnect+restart>[+parent-back] ADDED - LISTENER KIND x NAME CLASS PRODUCT (about a third of the listener adds, lname_test.go; label listener-kind-x-name-class-product): kind from {smb, ext, http, https = HTTP with Secure=true, for which HTTP.Start() generates an RSA certificate and writes it below <loot>/listener/<name without [^a-zA-Z0-9]>/ BEFORE it announces and stores the listener; HTTPS 3/32 and plain HTTP 2/32 of these adds} drawn independently of the name class from {ascii; sql = the collision families above; no-alnum = no ASCII letter or digit at all: CJK / Cyrillic / Greek / Arabic, punctuation only, blanks only, emoji, mixed; sanitise = names of one per-history base that become the SAME string once everything but [a-zA-Z0-9] is removed (a-b, a_b, a b, ab, a/b, a.b; label listener-names-sanitise-to-the-same-string when two such listeners coexist, two-https-listeners-share-a-certificate-directory); long = 100-400 characters, the sanitised rest <= 255 or > 255 bytes; path = ../x, a/b, .., ., /abs, x\\y, ~/x, x/, //x}; both drawn so that every cell is about equally likely (rapid prefers range ends). Labels lcell:https x <class>, listener:https; because the evidence keeps the 60 most frequent labels only, the whole matrix is counted into extra.listener_kind_x_name_class@<shard> (one key per shard, to be summed; each https x class cell >= 20 per quick run). Oracle unchanged: every listener the server holds after the add (t.Listeners) has its row with every operator-configured field incl. Secure, nothing else has; a missing HTTPS listener is reported as listeners|not-restored|https|<name-sanitises-to>255-bytes | name-without-ascii-letter-or-digit | long-name | name-with-path-separators | other-name> ADDED - SCALE (1 history in 256, scale_test.go; labels scale, scale:<what>:<bucket> with what in {sessions-restored, links-restored, inactive-sessions-stored, listeners, restarts, value-bytes} and buckets 64-129 / 255-513 / 999-1025 / 2047-4097 / 8191+): 2-3 listed agents plus a BULK of derived agents (ids BulkBase+j with BulkBase in {0x400, 0x100000, 0x7ffffe00 = across 2^31, 0xfff00000}); bulk operations (bulkreg, bulktree star / chains of 2-16 / random parents, bulkmark markdead|exit|markalive, bulkladd smb|ext|mixed, bulkrestart) are expanded by History.flat() into the ordinary operations, so every one of them takes the same real path as in the small histories (DEMON_INIT through handlers.(*External).Request, SMB-connect callbacks of the parents, operator packages); the count is drawn from the threshold-adjacent pool {63,64,65,127,128,129,255,256,257,511,512,513,999,1000,1001,1023,1024,1025,2047,2048,2049,4095,4096,4097} cut at what one case can afford (quick: 1025 sessions / 1025 listeners / 129 restarts / 8193 bytes of one stored host name; thorough: 4097 sessions and listeners), half of the draws from the six largest affordable values, half from the whole pool; combinations {sessions with links (half of the cases), sessions, sessions + a pool-sized number of INACTIVE sessions (the first or the last registered ones marked dead / exited), listeners, sessions + listeners, restarts}; the bulk brings the number of ACTIVE sessions to the pool value exactly (optionally in two parts with ordinary operations in the middle); ordinary operations of the existing generator (on the listed agents and on random bulk agents) run before, in the middle of and after the bulk; a restart at any point follows the bulk, then 1-4 ordinary operations, then (half of the cases) another restart. Oracle unchanged (agents and all 25 columns, key/IV, links by the model of the link events after every restart and at the end, one row per child, listeners)",
+		Rule: "histories of 1-5 registrations followed by 0-25 operations over 1-5 agents (database file, a third each: fresh / created by the current code and opened again / a copy of the committed testdata/golden-schema.db made by the unchanged tree - labels db:fresh|existed|golden; a violation on the golden file only, while its schema differs from a fresh one, is reported as schema|existing-database-differs-from-fresh|<tables>; ids over the whole 32-bit range incl. >= 2^31; metadata strings from {plain, digit-only, leading zeros, exponent-like, hex-like, whitespace-padded, empty, non-ASCII, quotes/SQL, decimal/signed/huge numbers, 300-9000 bytes}): reg, poll, pivot connect/disconnect, COMMAND_CHECKIN with new metadata and key, sleep / kill-date / working-hours callbacks, exit, kill-date, operator mark dead/alive, listener add (SMB, External; HTTP on an ephemeral port at ~1/20 of adds; names, and a third of the pipe names / endpoints, mostly from one per-history family of strings that differ but collide under ASCII/Unicode case, LIKE/glob wildcards vs literal characters, leading/trailing blanks, prefixes, Unicode normalisation or SQL quoting - label listener-names-colliding = two such listeners coexist) / remove / HTTP edit through the operator's DispatchEvent path; about half of the histories also contain one family of crafted updates of one agent (labels upd:*), mostly as the last operations so that the reopen follows at once: BOUNDARY SHIFT - two consecutive updates (key-preserving check-ins, or sleep callbacks) whose rows differ only by characters/digits moved across the boundary of two columns adjacent in the write order of db.AgentUpdate or in agent.AgentInfo (e.g. Username|DomainName bob|'' -> ''|bob, SleepDelay|SleepJitter 1|20 -> 12|0, ProcessName|BaseAddress svc1|23 -> svc|123), everything else incl. LastCallIn byte-identical; SWAP of two same-typed columns; NO-OP update(s) followed by a real one; REVERT A->B->A; each optionally interleaved with repeated identical updates; RESTART operations in the middle (a new Teamserver on the same file restores sessions, links and listeners as Start() does - in (a)/(b) a transcription of its restore loops, in (c) the real Start() in a new process - then the history goes on with registrations of new ids, of restored ids and of ids that were NOT restored because they were inactive, updates, deaths, marks, link and listener changes; several restarts allowed; only performed while every stored link joins two active sessions; labels restart-in-the-middle, restarts:2+, operations-after-restart, re-registration-of-unrestored-inactive-id, new-id-registered-after-restart); then a fresh db.DatabaseNew on the same file read with AgentAll/ParentOf/LinksOf/ListenerAll. Oracle: restored agents == active sessions of the running server, 25 columns equal byte for byte incl. key and IV; ParentOf/LinksOf == the server's Links lists; listener rows == listeners present with every operator-configured field equal. Non-trivial: a death, a link change or a numeric-looking string before the reopen; distinct = (death, link none/add/add+remove, numeric class bucket, listeners none/smb-ext/http/http-edited, colliding names, none/restart/restart+re-registration) ADDED - PIVOT TREES UNDER RESTARTS AT ANY POINT (a quarter of the histories, piv_test.go; label pivot-trees-with-restarts-at-any-point): 3-6 agents, a forest of depth up to 3 built through the real connect path (1-2 registered roots, every other session through the SMB-connect callback of its parent, some registered top-level first and then linked), then 3-14 events aimed by a model of the history at sessions for which they mean something: disconnect of an existing UPPER link (the child has links of its own) or LOWER link, a disconnect reported by a non-parent, death (exit / kill-date / mark dead) of any session, mark alive (preferably of an inactive session), check-in, poll, sleep, registration of an id that has no session in memory (not restored by the last restart), connect of ANY agent below any active session - preferably of a session whose STORED parent has no session in memory since the last restart, and of ids that are not in memory themselves -, listener add/remove, the old conditional restart, and 'restartx' = a restart at ANY point (several per history), i.e. also while a stored link names a session that is stored inactive (the start then restores the child without its parent and leaves the row). Labels: disconnect-of-upper-link, disconnect-of-lower-link, disconnect-reported-by-non-parent, restart-after-upper-link-disconnect, restart-leaves-child-of-unrestored-parent-as-root, reconnect-of-agent-whose-stored-parent-is-not-in-memory (reconnect-path:session-in-memory,stored-parent-not / connect-as-new:stored-parent-not-in-memory), restart-after-reconnect-of-agent-whose-stored-parent-was-not-in-memory, re-parented-after-restart, registration-of-unrestored-id, registration-of-unrestored-parent-with-stored-children, unrestored-id-registers-through-a-pivot, mark-alive-of-inactive-session, death-after-restart, connect-reported-by-inactive-session, restarts-at-any-point:2+, pivot-depth:n. Oracle for these histories (agents, 25 columns, key/IV and listeners as before): after EVERY restart the restored sessions == the sessions active before it, and the parent and the Links of every restored session == the pairs given by the link events of the history (connect(A,B) makes A the one stored parent of B; a disconnect reported by the parent or a death of either end while the server holds the link removes it; a session whose parent is not restored comes back as a root and gets its parent back when the parent is active again at a later start - what the unchanged tree does, followed operation by operation by pmodel, validated against it by TestC10PivModel); TS_Links never holds two rows for one child (signature links|two-rows-for-one-child); the final reopen is compared with the same model (signatures any-point-restart|...). The fingerprint of these histories gets a suffix any-point-restart=<plain | orphan+restart | upper-cut+restart | dangling-reconnect | dangling-reconnect+restart>[+parent-back] ADDED - LISTENER KIND x NAME CLASS PRODUCT (about a third of the listener adds, lname_test.go; label listener-kind-x-name-class-product): kind from {smb, ext, http, https = HTTP with Secure=true, for which HTTP.Start() generates an RSA certificate and writes it below <loot>/listener/<name without [^a-zA-Z0-9]>/ BEFORE it announces and stores the listener; HTTPS 3/32 and plain HTTP 2/32 of these adds} drawn independently of the name class from {ascii; sql = the collision families above; no-alnum = no ASCII letter or digit at all: CJK / Cyrillic / Greek / Arabic, punctuation only, blanks only, emoji, mixed; sanitise = names of one per-history base that become the SAME string once everything but [a-zA-Z0-9] is removed (a-b, a_b, a b, ab, a/b, a.b; label listener-names-sanitise-to-the-same-string when two such listeners coexist, two-https-listeners-share-a-certificate-directory); long = 100-400 characters, the sanitised rest <= 255 or > 255 bytes; path = ../x, a/b, .., ., /abs, x\\y, ~/x, x/, //x}; both drawn so that every cell is about equally likely (rapid prefers range ends). Labels lcell:https x <class>, listener:https; because the evidence keeps the 60 most frequent labels only, the whole matrix is counted into extra.listener_kind_x_name_class@<shard> (one key per shard, to be summed; each https x class cell >= 20 per quick run). Oracle unchanged: every listener the server holds after the add (t.Listeners) has its row with every operator-configured field incl. Secure, nothing else has; a missing HTTPS listener is reported as listeners|not-restored|https|<name-sanitises-to>255-bytes | name-without-ascii-letter-or-digit | long-name | name-with-path-separators | other-name> ADDED - SCALE (1 history in 256, scale_test.go; labels scale, scale:<what>:<bucket> with what in {sessions-restored, links-restored, inactive-sessions-stored, listeners, restarts, value-bytes} and buckets 64-129 / 255-513 / 999-1025 / 2047-4097 / 8191+): 2-3 listed agents plus a BULK of derived agents (ids BulkBase+j with BulkBase in {0x400, 0x100000, 0x7ffffe00 = across 2^31, 0xfff00000}); bulk operations (bulkreg, bulktree star / chains of 2-16 / random parents, bulkmark markdead|exit|markalive, bulkladd smb|ext|mixed, bulkrestart) are expanded by History.flat() into the ordinary operations, so every one of them takes the same real path as in the small histories (DEMON_INIT through handlers.(*External).Request, SMB-connect callbacks of the parents, operator packages); the count is drawn from the threshold-adjacent pool {63,64,65,127,128,129,255,256,257,511,512,513,999,1000,1001,1023,1024,1025,2047,2048,2049,4095,4096,4097} cut at what one case can afford (quick: 1025 sessions / 1025 listeners / 129 restarts / 8193 bytes of one stored host name; thorough: 4097 sessions and listeners), half of the draws from the six largest affordable values, half from the whole pool; combinations {sessions with links (half of the cases), sessions, sessions + a pool-sized number of INACTIVE sessions (the first or the last registered ones marked dead / exited), listeners, sessions + listeners, restarts}; the bulk brings the number of ACTIVE sessions to the pool value exactly (optionally in two parts with ordinary operations in the middle); ordinary operations of the existing generator (on the listed agents and on random bulk agents) run before, in the middle of and after the bulk; a restart at any point follows the bulk, then 1-4 ordinary operations, then (half of the cases) another restart. Oracle unchanged (agents and all 25 columns, key/IV, links by the model of the link events after every restart and at the end, one row per child, listeners) ADDED - FAULT INJECTION (a third of the ordinary histories = a quarter of all, fault_test.go; labels fault, fault:<dependency>:<operation>:<how>@<operation kind>, operations-after-fault, restart-operation-after-fault, fault-at-last-operation; every class >= 20 times per quick run except the 5 s one, counted per shard in extra.fault_classes@<shard>): ONE operation of the history runs while the database - the dependency of the persistence path - fails, then the fault is lifted and the history continues with ordinary operations, restarts and the final reopen. Injected from outside through the real dependency: (1) trigger - the fixture's second connection installs CREATE TRIGGER verif_fault BEFORE <INSERT|UPDATE|DELETE> ON <TS_Listeners|TS_Agents|TS_Links> BEGIN SELECT RAISE(FAIL, 'database or disk is full'); END for the operation and drops it afterwards; the operation is one that reaches such a statement (INSERT TS_Listeners @ladd/ledit, DELETE TS_Listeners @lremove/ledit, INSERT TS_Agents @reg/connect, UPDATE TS_Agents @poll/checkin/sleep/cfgkill/exit/markdead/markalive/disconnect/connect, INSERT TS_Links @connect, DELETE TS_Links @disconnect/exit/markdead/re-parenting connect; UPDATE TS_Listeners, UPDATE TS_Links, DELETE TS_Agents are issued by no operation and must change nothing), either an operation the history already has or one inserted at a drawn position together with what makes it effective (a listener to remove, a HTTP listener to edit, a link to disconnect, a new agent to register); (2) readonly - the data directory gets mode 0555 and the OS thread the operation runs on loses CAP_DAC_OVERRIDE / CAP_DAC_READ_SEARCH for its duration, so sqlite cannot create its rollback journal and every write statement fails (@reg/connect/disconnect/markdead/checkin/ladd/lremove); (3) lock-released - a second connection holds BEGIN IMMEDIATE when the operation starts and rolls back 20 ms later, inside the 5 s busy timeout the teamserver's connection has: the operation must succeed completely; (4) lock-held - the lock is held across the whole operation, its single write statement fails with 'database is locked' after 5 s (@lremove/reg/ladd; about 1 faulted history in 512 because of the wait). ORACLE UNCHANGED, evaluated before every restart that follows the fault and at the final reopen: restored == what the running server holds and has told the operators. A listener removal counts as acknowledged only when the server no longer has a listener of that name (the condition under which dispatch.go announces the removal; the unchanged tree keeps the listener when it cannot delete the row) as an add counts only when it has one (the unchanged tree takes the listener back when it cannot store the row): a listener the operator saw removed must not be restored (listeners|removed-listener-restored), one he saw added must be. What the unchanged tree does when a statement of a session's callback fails is followed as it is: cmd/server AgentUpdate / LinkAdd / LinkRemove log the error and the session goes on as the agent reported it, the row (written whole by the next successful AgentUpdate) or the link stays behind; sessions that HAVE a row which differs from the memory right after the operation under the fault, and both ends of links stored-but-not-held or held-but-not-stored at that moment, are set aside (extra.fault_left_stored_sessions_or_links_behind_memory) - everything else (all other sessions, links and every listener) is compared as always; a conditional restart is then not performed while a stored link names a session set aside. A violation of a history with a fault that does not show without the fault is reported as fault|<dependency>:<operation>:<how>|<class of the difference>",
 		Gen:   genA, Check: checkA, Classify: classifyH,
 		Assumptions: []string{
 			"reference for 'what had happened' is the state the running server holds in memory when the last operation returned; callbacks are delivered through agent.TaskDispatch, registrations and polls through handlers.(*External).Request",
@@ -1042,6 +1044,8 @@ func TestC10a(t *testing.T) {
 			"scale histories: counts are cut at what one case can afford (see Rule); the teamserver's own per-operation cost grows with the number of sessions (table scans without index, linear searches), about 2 s for 1025 registrations and 10-30 s for 4097",
 			"list-valued listener fields contain no empty element and no ', ' (the operator dialog joins and the server splits on ', ')",
 			"database on tmpfs when available; reopening happens in the same process after closing nothing (the server's handle stays open, as after a crash the file is all there is)",
+			"fault injection: one fault per history, one operation long; the database is the only dependency of the persistence path (the certificate files of HTTPS listeners are not C10's subject); 'disk full' is a trigger raising that message (RAISE(FAIL)), not a full file system; the read-only directory is enforced by dropping CAP_DAC_OVERRIDE on the locked thread of the operation (cgo calls run on the calling thread), where that is not possible the case runs without fault (extra.fault_readonly_not_available)",
+			"fault injection: the unchanged tree logs a failed AgentUpdate / LinkAdd / LinkRemove and goes on (the agent HAS slept, died, disconnected); the sessions and links this leaves behind in the database are set aside, not reported - what IS reported on the unchanged tree is listed in known.d/C10.jsonl (a registration acknowledged although its INSERT failed; an operator's listener edit whose DELETE or INSERT failed)",
 		},
 	})
 }
